@@ -2,7 +2,8 @@
 from .. import common, gen, mergecorr, oracles, t2
 from . import base
 
-THEOREMS = ['C03_constants', 'C03_binary', 'C03_winner', 'C03_metadata', 'C03_container_priority_applies_below']
+THEOREMS = ['C03_constants', 'C03_binary', 'C03_winner', 'C03_metadata', 'C03_container_priority_applies_below', 'C03_priorities_refine',
+            'C03_every_leaf_path_latest_of_highest', 'C03_merge_is_prioritised_update', 'C03_prediction_sound', 'C03_update_is_pointwise']
 
 
 def in_domain(docs):
@@ -84,6 +85,52 @@ def gen_three_stage(rng):
     return [parse_doc(t) for t in texts]
 
 
+def spec_p_corr(rep, rng, n):
+    """the SPEC of C03_priorities_refine against the implementation: histories of mapping-only documents with !force / !weak /
+    !metadata{{priority}} tags on scalars and enclosing mappings.  The stages are handed to Coq as the trees the real loader built (all raw
+    flags) together with the tree Builder.build returned; Coq decides class membership (Proofs.PrioClass.newz_b, proved sound), folds
+    Spec.UpdateP.upd_p over the priority images and compares with the priority image of the built tree.  A difference in the VALUES is a
+    concrete failing input of the property; a difference only in node priorities breaks the correspondence obligation."""
+    from .. import ser
+    prof = gen.PROFILES['priomap']
+    items, shown = [], []
+    for i in range(n):
+        docs = gen_three_stage(rng) if i % 4 == 0 else gen.gen_history(rng, prof, 2, 5)
+        texts = [gen.render(d) for d in docs]
+        try:
+            b = mergecorr.parse_stages(texts)
+            intern = ser.Interner()
+            stage_terms = [ser.node_term(st, intern) for st in b.stages]
+        except Exception:
+            continue
+        try:
+            root = b.build()
+            got = f'(Some {ser.node_term(root, intern)})'
+            rep.count('priority spec: implementation ok')
+        except Exception as e:
+            got = 'None'
+            rep.count('priority spec: implementation ' + type(e).__name__)
+        items.append(f'({ser.coq_list(stage_terms)}, {got})')
+        shown.append(texts)
+    hdr = 'From AY Require Import Model.Eq Spec.Update Spec.UpdateP Proofs.MergePrio Proofs.PrioClass.\nOpen Scope Z_scope.\n'
+    inclass = 'fun c : list node * option node => match predict_prio (fst c) with Some _ => true | None => false end'
+    chk_full = ('fun c : list node * option node => match predict_prio (fst c), snd c with Some d, Some r => pp_eqb d (perase r) | Some _, None => false | None, _ => true end')
+    chk_vals = ('fun c : list node * option node => match predict_prio (fst c), snd c with Some d, Some r => plain_eqb (pvals d) (erase r) | Some _, None => false | None, _ => true end')
+    bad, errors_, wall, cmd = common.run_case_files('c03p', hdr, items, chk_full, shard=150)
+    rep.checker_cmds.append(cmd)
+    badv, errors3, _, _ = common.run_case_files('c03v', hdr, items, chk_vals, shard=150)
+    out, errors2, _, _ = common.run_case_files('c03k', hdr, items, inclass, shard=150)
+    ninc = len(items) - len(out)
+    rep.count('priority spec: histories inside the theorem class NewZ (judged)', ninc)
+    rep.count('priority spec: histories outside the class (not judged)', len(out))
+    rep.oblige(f'T3 correspondence fold of Spec.UpdateP.upd_p (class membership and priority images computed from the loaded trees) = Builder.build on {ninc} histories '
+               'of mapping documents with priority tags (values and priorities of every node)',
+               not bad and not errors_ and not errors2 and not errors3 and ninc > 0, (f'{len(bad)} disagreements, e.g. {shown[bad[0]]}' if bad else '') + (errors_[0]['log'][-400:] if errors_ else ''))
+    for i in badv[:3]:
+        rep.violation('the merged values differ from the prioritised update (the latest writer of highest priority) on mapping documents with priority tags', dict(oracle='upd_p spec', input=shown[i]))
+    rep.extra.setdefault('correspondence', []).append(dict(label='upd_p spec', cases=len(items), in_class=ninc, disagreements=len(bad), value_disagreements=len(badv), coq_wall_s=round(wall, 1)))
+
+
 def run(rep, tier, rng):
     rep.rule = ('histories of 2-5 mapping documents over keys {a,b,c,r,0,1,2} whose nodes carry !force/!weak (on leaves or enclosing mappings) and '
                 '!metadata{{..}} with optional priority; later documents are mutations of earlier ones so that writers of different priority meet at the same path; '
@@ -104,6 +151,7 @@ def run(rep, tier, rng):
                bool(litems) and not bad and not errors, (f'{len(bad)} disagreements' if bad else '') + (errors[0]['log'][-400:] if errors else ''))
     n = 400 if tier == 'quick' else 6000
     cases = base.merge_t3(rep, rng, ['priomap', 'prio', 'priomap'], n, 'prio', 2, 5)
+    spec_p_corr(rep, rng, 300 if tier == 'quick' else 5000)
     hist = [c['docs'] for c in cases if 'docs' in c]
     prof = gen.PROFILES['priomap']
     for _ in range(300 if tier == 'quick' else 6000):
